@@ -357,6 +357,7 @@ class ValResult:
         self.consumed = 0
         self.mismatches = []   # (line index 1-based, detail text)
         self.kf = []           # (finding id, line index)
+        self.notes = 0         # <<"NOTE", ...>> lines: diagnostics that are not verdicts
         self.states = 0
         self.out = ""
 
@@ -387,6 +388,9 @@ def validate_file(trace_module, cfg, path, known_ids, timeout=3600, heap="3g", e
         m = re.match(r'^<<"KF", "([^"]+)", (\d+)>>$', line)
         if m:
             v.kf.append((m.group(1), int(m.group(2))))
+            continue
+        if line.startswith('<<"NOTE"'):
+            v.notes += 1
             continue
         m = re.match(r'^<<"CONSUMED", (\d+)>>$', line)
         if m:
@@ -425,7 +429,7 @@ def validate(trace_module, cfg, event_lists, known_ids, tag, chunk_events=4000, 
     if cur:
         chunks.append((cur, cur_idx))
     jobs = jobs or max(1, min(NCPU - 2, 12, len(chunks)))
-    out = {"mismatch": [], "kf": [], "events": 0, "states": 0, "chunks": len(chunks)}
+    out = {"mismatch": [], "kf": [], "events": 0, "states": 0, "chunks": len(chunks), "notes": 0}
 
     def work(k):
         evs, idxs = chunks[k]
@@ -441,10 +445,11 @@ def validate(trace_module, cfg, event_lists, known_ids, tag, chunk_events=4000, 
             return idxs[-1][0], 0
         mm = [(case_of(l) + (d,)) for l, d in v.mismatches]
         kf = [(fid,) + case_of(l) for fid, l in v.kf]
-        return mm, kf, len(evs), v.states
+        return mm, kf, len(evs), v.states, v.notes
 
     with ThreadPoolExecutor(max_workers=jobs) as ex:
-        for mm, kf, n, st in ex.map(work, range(len(chunks))):
+        for mm, kf, n, st, nt in ex.map(work, range(len(chunks))):
+            out["notes"] += nt
             out["mismatch"].extend(mm)
             out["kf"].extend(kf)
             out["events"] += n
